@@ -42,7 +42,7 @@ INCOMING = [j(f"{S}:LDAPClient._process_incoming_message"), j(f"{S}:LDAPServer._
 
 RECEIVE = [inh("receive", "LDAPServer"), inh("receive", "LDAPClient"), j(f"{S}:LDAPServer.receive"), j(f"{S}:LDAPClient.receive"),
            j("_messages:unpack_ldap_message")]
-LEMMAS_FRAMING = [j("specs.sess:" + n) for n in ("lemma_tlv_prefix", "lemma_chunk", "lemma_residue_incomplete")] + \
+LEMMAS_FRAMING = [j("specs.sess:" + n) for n in ("lemma_tlv_prefix", "lemma_chunk", "lemma_residue_incomplete", "lemma_any_chunking")] + \
                  [j("specs.ber:" + n) for n in ("lemma_b128end_bounds", "lemma_be_bound", "lemma_be_prefix", "lemma_b128_prefix", "lemma_b128end_prefix")]
 FRAME_READERS = [j("asn1:" + n) for n in ("ASN1Reader.read_sequence", "_read_asn1_sequence", "_validate_tag", "_read_asn1_header",
                                            "_unpack_asn1_octet_number", "ASN1Reader.get_remaining_data")]
@@ -124,9 +124,9 @@ REGISTRY = {
                            "At the message layer the contract unpack(encode_with_freedoms(abstract(m))) == m is evaluated over the bounded message set x 10 freedom combinations (extra length octets at every node, TRUE as 01/80/7F, explicit defaults, unknown trailing elements incl. ones whose tag number coincides with a known component in another class)."},
     "C02": {"jobs": RECEIVE + LEMMAS_FRAMING + FRAME_READERS + [j("asn1:ASN1Reader.read_octet_string")], "native": "native_receive.py",
             "assumptions": ["decoding the content of one envelope is a deterministic function of those octets and the options (dec_content; C19 supports it)",
-                            "the 'same state as a single delivery' clause composes the proved facts on paper: receive returns msgs(R ++ data) and keeps residue(R ++ data); "
-                            "lemma_chunk gives msgs(A ++ B) == msgs(A) ++ msgs(residue(A) ++ B) and residue(A ++ B) == residue(residue(A) ++ B); messages are processed in list order by the "
-                            "deterministic _process_incoming_message contracts, so any partition yields the same fold"]},
+                            "every partition: lemma_any_chunking (induction over the list of chunks, proved) folds the per-call contract of receive - returns msgs(R ++ data), keeps residue(R ++ data) - "
+                            "over any list of chunks and equates it with one delivery of the concatenation (same messages in the same order, same held-back bytes). "
+                            "That the session *state* is the same as well rests on the per-message contracts of _process_incoming_message being deterministic in (state, message): stated, not machine-checked"]},
     "C05": {"jobs": RECEIVE + INCOMING + DECODE_TREE + READER_METHODS, "native": "native_receive.py",
             "assumptions": ["default PackingOptions: no user-registered custom credential / filter / control types (a registered type's unpack is user code)",
                             "RecursionError is the only resource exception (raised by the interpreter at its recursion limit inside the recursive filter decoder, caught by receive: proved as one of the "
